@@ -145,7 +145,27 @@ def function_call():
         'return res\n').body
     if [dump(s) for s in body] != [dump(s) for s in ref]:
         bad('FunctionCall.type_vars: shape not recognised')
-    return {'fresh': fresh, 'uses_method': True}, provenance(FC, src, init) + ' ; ' + provenance(FC, src, tv)
+    # every check of a value - named parameters, the values collected by *args / **kwargs, the result - obtains the table
+    # through the PROPERTY at the call (inside the loops), never through a hoisted local or the backing field
+    checks = []
+    for name in ('_check_type_param', '_check_types_args', '_check_types_kwargs', '_check_types_return'):
+        fn = find_in(cls, name, UNIT)
+        calls = [n for n in ast.walk(fn) if isinstance(n, ast.Call) and is_name(n.func, 'assert_value_matches_type')]
+        if len(calls) != 1:
+            bad(f'FunctionCall.{name}: expected exactly one assert_value_matches_type call, found {len(calls)}')
+        kws = [k for k in calls[0].keywords if k.arg == 'type_vars']
+        if len(kws) != 1 or calls[0].args:
+            bad(f'FunctionCall.{name}: the check is not called with a type_vars keyword')
+        checks.append(variant(kws[0].value, [('self.type_vars', True), ('self._type_vars', False), ('type_vars', False),
+                                             ('cached_type_vars', False)], f'FunctionCall.{name}: table argument'))
+        if name in ('_check_types_args', '_check_types_kwargs'):
+            loops = [n for n in fn.body if isinstance(n, ast.For)]
+            if len(loops) != 1 or not any(c is calls[0] for c in ast.walk(loops[0])):
+                bad(f'FunctionCall.{name}: the check is not inside the single loop over the collected values')
+    gen = [n for n in ast.walk(find_in(cls, '_check_types_return', UNIT)) if isinstance(n, ast.Call) and is_name(n.func, 'GeneratorWrapper')]
+    if len(gen) != 1 or [dump(k.value) for k in gen[0].keywords if k.arg == 'type_vars'] != [dump(expr('self.type_vars'))]:
+        bad('FunctionCall._check_types_return: GeneratorWrapper is not given self.type_vars')
+    return {'fresh': fresh, 'uses_method': True, 'per_check': all(checks)}, provenance(FC, src, init) + ' ; ' + provenance(FC, src, tv)
 
 
 def class_table():
@@ -232,5 +252,5 @@ def translate():
              f'  sh_call_table_fresh := {coq_bool(fc["fresh"])};\n  sh_call_uses_instance_method := {coq_bool(fc["uses_method"])};\n'
              f'  sh_table_on_instance := {coq_bool(ct["on_instance"])};\n  sh_merge_order := {coq_list(ct["order"])};\n'
              f'  sh_nongeneric_fresh := {coq_bool(ct["nongeneric_fresh"])};\n  sh_orig_class_guard := {coq_bool(ge["guard"])};\n'
-             f'  sh_generics_positional := {coq_bool(ge["positional"])};\n  sh_generic_by_parameters := {coq_bool(ge["by_params"])} |}}.\n')
+             f'  sh_generics_positional := {coq_bool(ge["positional"])};\n  sh_generic_by_parameters := {coq_bool(ge["by_params"])};\n  sh_every_check_fetches_table := {coq_bool(fc["per_check"])} |}}.\n')
     return {UNIT: text}
